@@ -443,6 +443,8 @@ pub fn msg_slots() -> Vec<Item> {
     let r_bad = rec(b(b""), map(vec![]), u(1), None);
     let r_nest2 = rec(b(b""), map(vec![]), NULL, Some(vec![r_valid.clone()]));
     let r_nest3 = rec(b(b""), map(vec![]), NULL, Some(vec![r_nest2.clone()]));
+    // two different recipients below a recipient: their order is part of the value
+    let r_nest_two = rec(b(b""), map(vec![]), NULL, Some(vec![r_valid.clone(), r_valid_nil.clone(), r_nest2.clone()]));
     let r_nest2_bad = rec(b(b""), map(vec![]), NULL, Some(vec![r_bad.clone()]));
     let r_nest3_bad = rec(b(b""), map(vec![]), NULL, Some(vec![r_nest2_bad.clone()]));
     vec![
@@ -475,6 +477,7 @@ pub fn msg_slots() -> Vec<Item> {
         arr(vec![r_valid.clone()]),
         arr(vec![r_valid_nil.clone(), r_nest2.clone()]),
         arr(vec![r_nest3.clone()]),
+        arr(vec![r_nest_two.clone()]),
         arr(vec![r_bad.clone()]),
         arr(vec![r_nest2_bad.clone()]),
         arr(vec![r_nest3_bad.clone()]),
